@@ -61,6 +61,7 @@ def apply(stmts, st, unit_starts=()):
     groups = [[s] for s in stmts]      # physical lines of each statement
     before = [[] for _ in stmts]       # inserted lines before each statement
     joined = [False] * n
+    flush = False
     fixed = False
     fixed_flag = "C"
     for op in st["ops"]:
@@ -83,6 +84,13 @@ def apply(stmts, st, unit_starts=()):
             head, tail = pre + body0[:sp], body0[sp + 1:].lstrip()
             groups[i][-1] = head + " &"
             groups[i].append(ind + "    " + ("& " if op.get("lead") else "") + tail)
+        elif k == "tcomment":
+            i = op["at"] - 1
+            if "!" in groups[i][-1] or "'" in groups[i][-1]:
+                raise NotApplicable("statement already carries a comment or a string")
+            groups[i][-1] = groups[i][-1] + "  ! note; end of this part"
+        elif k == "flush":
+            flush = True
         elif k == "join":
             i = op["at"] - 1
             if i in unit_starts or (i - 1) in unit_starts and False:
@@ -96,10 +104,15 @@ def apply(stmts, st, unit_starts=()):
     phys = []
     for i in range(n):
         if joined[i]:
+            if "!" in phys[-1]:
+                raise NotApplicable("cannot join after a trailing comment")
             phys[-1] = phys[-1].rstrip() + "; " + groups[i][0].strip()
             continue
         phys += before[i]
         phys += groups[i]
+    if flush and not fixed:
+        # continuation lines keep one blank so that "&" stays apart from the text
+        phys = [l.lstrip() for l in phys]
     if fixed:
         out = []
         for l in phys:
